@@ -128,6 +128,8 @@ func HelperMain() {
 		signal.Notify(c, syscall.SIGINT)
 		<-c
 		time.Sleep(time.Duration(ms) * time.Millisecond)
+		// record when this process was about to be gone (checked against the end of the run that started it)
+		os.WriteFile(args[1]+".exit", []byte(fmt.Sprint(vlib.MonoNow())), 0o666)
 		os.Exit(0)
 	case "trapquit":
 		writePid(args[1])
